@@ -4,6 +4,13 @@ from dataclasses import dataclass, field
 
 import numpy as np
 
+# debugging aid (never set by registered commands): QV_TRACE_RATIO=0.5 [QV_TRACE_SITE=substring] prints every bound used
+# beyond that fraction
+import os
+import sys
+_TRACE = float(os.environ["QV_TRACE_RATIO"]) if os.environ.get("QV_TRACE_RATIO") else None
+_TRACE_SITE = os.environ.get("QV_TRACE_SITE", "")
+
 
 @dataclass
 class Failure:
@@ -64,6 +71,9 @@ class Out:
             r = v / b
             if r > self.ratios.get(site, 0.0):
                 self.ratios[site] = r
+            if _TRACE is not None and r > _TRACE and (not _TRACE_SITE or _TRACE_SITE in site):
+                print(f"TRACE ratio={r:.3f} site={site} value={v:.3e} bound={b:.3e} tags={self.tags if tags is None else tags} {msg}",
+                      file=sys.stderr, flush=True)
         if not ok:
             self.failures.append(Failure(site, msg or "bound exceeded", v, b,
                                          self.tags if tags is None else tuple(tags)))
